@@ -38,9 +38,9 @@ NEEDS = {
  'C14-b': ('C14', 'side to move has exactly one pawn and it captures: origin file omitted (`xd5`)'),
  'C15-b': ('C15', 'export wraps with textwrap::fill defaults: a castling token crossing column 85 is split at its hyphen, export not re-importable'),
  'C16-b': ('C16', 'printer drops the promotion suffix of non-pawn moves (102,400 of 147,458 values)'),
- 'C17-b': ('C17', '(pending)'),
+ 'C17-b': ('C17', 'between-table entry of the single pair a1-h8 wrong (stride 7 vs 9 ambiguity for index difference 63): slider or king on a1/h8 facing the opposite corner'),
  'C18-b': ('C18', 'Square::new(64) accepted (> instead of >=)'),
- 'C19-b': ('C19', '(pending)'),
+ 'C19-b': ('C19', 'is_theoretical_draw: Black\'s minor-piece test intersects the occupancy instead of Black\'s mask: White K+minor vs Black K+R/Q/P reported insufficient, the colour-flipped position ongoing'),
  'C20-b': ('C20', 'render_flipped blanks rank rows when the lower ranks are empty (orientation assumption of an endgame shortcut)'),
 }
 for sid, (prop, needs) in NEEDS.items():
